@@ -5,7 +5,7 @@ From GD Require Import Base.Prelude Model.Strings Model.Buffer Model.Unreal2Str 
 From GD Require Import Model.Net Model.Valve Model.ValveShow Model.Master Model.Settings Model.Quake Model.Unreal2.
 From GD Require Import Spec.Rand Spec.ValveSpec Spec.ValveGen Spec.CaseEnc Spec.MasterSpec Spec.QuakeSpec Spec.Unreal2Spec Spec.GamespySpec Spec.GamesSpec Spec.MinecraftSpec.
 From GD Require Import Model.View Gen.CommonImpls Model.ViewInst Spec.ViewSpec.
-From GD Require Import Model.Dispatch Gen.ModulesTable Gen.GamesTable Model.IdCheck Model.Gamespy Model.Games Model.Minecraft Model.Cli.
+From GD Require Import Model.Dispatch Gen.ModulesTable Gen.GamesTable Model.IdCheck Model.Gamespy Model.Games Model.Minecraft Model.Cli Model.Eco.
 
 Definition rd_u8 : R N := read_uint true 1.
 Definition rd_u16 : R N := read_uint true 2.
@@ -692,6 +692,16 @@ Definition case_cli_xml : R bytes :=
                                | None => str "no" end)
        ++ str ";conforms=" ++ (if xml_conforms actual v then str "yes" else str "no")).
 
+(* family 52: Eco over HTTP. The case carries the HTTP reply for the harness's web server and, for the
+   model, what the JSON reader makes of the body (oracle): 0 = not a JSON document, 1 = the value as a tree *)
+Definition case_eco : R bytes :=
+  let* _ := rd_u8 in                         (* IPv6? *)
+  let* _ := rd_bytes32 in                    (* the reply bytes *)
+  let* _ := rd_u8 in                         (* close after the reply? *)
+  let* k := rd_u8 in
+  if k =? 0 then ret (show_outcome show_eco (Err ProtocolFormat))
+  else let* v := rd_tree 12 in ret (show_outcome show_eco (eco_map v)).
+
 Definition run_case_R : R bytes :=
   let* fam := rd_u8 in
   if fam =? 1 then case_bufops
@@ -717,6 +727,7 @@ Definition run_case_R : R bytes :=
   else if fam =? 42 then case_gamespy 2
   else if fam =? 43 then case_gamespy 3
   else if fam =? 50 then case_game
+  else if fam =? 52 then case_eco
   else if fam =? 110 then case_spec_valve
   else if fam =? 150 then case_spec_game
   else if fam =? 133 then case_spec_minecraft
